@@ -89,6 +89,7 @@ class Model:
 # OpenAeroStruct function other than the mesh generator that produced them has seen them. A digest taken
 # only after the model is built would miss an in-place edit made *during* set-up.
 _EARLY = None
+_MESH_OPTS = {}  # per-build overrides of mesh-dict options (spec["mesh_opts"]), e.g. span_cos_spacing
 _SURF_OPTS = {}  # per-build overrides of surface-dict options (spec["surf_opts"]): option combinations of the swarm
 
 
@@ -121,11 +122,13 @@ def _gen_mesh(wing_type, nx, ny, symmetry, **kw):
     from openaerostruct.geometry.utils import generate_mesh
     from .core import digest
 
-    key = ("mesh", wing_type, nx, ny, symmetry, digest(kw))
+    key = ("mesh", wing_type, nx, ny, symmetry, digest(kw), digest(_MESH_OPTS))
     if SHARE is not None and key in SHARE["reg"]:
         return SHARE["reg"][key]
     md = {"num_y": ny, "num_x": nx, "wing_type": wing_type, "symmetry": symmetry}
     md.update(kw)
+    if _MESH_OPTS:
+        md.update(_MESH_OPTS)
     out = generate_mesh(md)
     if "CRM" in wing_type:
         mesh, twist_cp = out
@@ -762,6 +765,9 @@ def _as_problem(spec, surfaces, flight, n_points=1, compressible=False, rotation
                 prob.model.connect(v, pn + "." + v)
         if "beta" in vals:
             prob.model.connect("beta", pn + ".beta")
+        if rotational:
+            prob.model.connect("omega", pn + ".coupled.aero_states.omega")
+            prob.model.connect("cg_rot", pn + ".coupled.aero_states.cg")
         if ground:
             prob.model.connect("height_agl", pn + ".height_agl")
         needs_lf = any(
@@ -887,6 +893,12 @@ def z8(spec):
     if spec.get("stiff"):
         s["E"] *= spec["stiff"]
         s["G"] *= spec["stiff"]
+    pm_vals = None
+    if spec.get("pm"):
+        # engine as a point mass with thrust, as in the documented engine-thrust example
+        s["n_point_masses"] = 1
+        pm_vals = {"point_masses": (np.array([[8000.0]]), "kg"), "engine_thrusts": (np.array([[80.0e3]]), "N"),
+                   "point_mass_locations": (np.array([[25.0, -10.0, -1.0]]), "m")}
     flight = _as_flight()
     pn = "AS_point_0"
     driver = dict(
@@ -895,8 +907,12 @@ def z8(spec):
               (pn + ".L_equals_W", "equals", 0.0)],
         obj=(pn + ".fuelburn", 1e-5),
     )
-    prob, coupled = _as_problem(spec, [s], flight, driver=driver)
-    inputs = _as_inputs(flight, mach=(0.7, 0.86)) + [
+    prob, coupled = _as_problem(spec, [s], flight, driver=driver, point_mass_vals=pm_vals)
+    inputs = _as_inputs(flight, mach=(0.7, 0.86)) + ([
+        Inp("point_masses", np.array([[8000.0]]), "rel", -0.5, 0.5, special=[0.0]),
+        Inp("engine_thrusts", np.array([[80.0e3]]), "rel", -0.5, 0.5, special=[0.0]),
+        Inp("point_mass_locations", np.array([[25.0, -10.0, -1.0]]), "abs", -1.0, 1.0),
+    ] if spec.get("pm") else []) + [
         Inp("load_factor", 1.0, "uni", 0.8, 2.5, special=[1.0]),
         Inp("wing.twist_cp", twist_cp, "abs", -2.0, 2.0),
         Inp("wing.thickness_cp", np.array([0.1, 0.2, 0.3]), "rel", -0.3, 0.5),
@@ -938,8 +954,15 @@ def z9(spec):
             s_["G"] *= spec["stiff"]
     flight = _as_flight()
     flight["beta"] = (1.0, "deg")
-    prob, coupled = _as_problem(spec, [wing, tail], flight)
-    inputs = _as_inputs(flight) + [
+    rot = bool(spec.get("rotational"))
+    if rot:
+        flight["omega"] = (np.array([3.0, 2.0, -1.0]), "deg/s")
+        flight["cg_rot"] = (np.array([2.0, 0.0, 0.0]), "m")
+    prob, coupled = _as_problem(spec, [wing, tail], flight, rotational=rot)
+    inputs = _as_inputs(flight) + ([
+        Inp("omega", np.array([3.0, 2.0, -1.0]), "abs", -5.0, 5.0, special=[0.0]),
+        Inp("cg_rot", np.array([2.0, 0.0, 0.0]), "abs", -1.0, 1.0),
+    ] if rot else []) + [
         Inp("beta", 1.0, "uni", -3.0, 3.0, special=[0.0]),
         Inp("load_factor", 1.0, "uni", 0.8, 2.5, special=[1.0]),
         Inp("wing.twist_cp", np.array([2.0, 4.0, 2.0]), "abs", -1.5, 1.5),
@@ -1366,18 +1389,23 @@ def z0(spec):
 
 
 def build(spec):
-    global _EARLY, _SURF_OPTS
+    global _EARLY, _SURF_OPTS, _MESH_OPTS
     if spec["zoo"] not in ZOO:
         raise HarnessError("unknown zoo entry %r" % (spec["zoo"],))
     _EARLY = []
     _SURF_OPTS = dict(spec.get("surf_opts") or {})
+    _MESH_OPTS = dict(spec.get("mesh_opts") or {})
     try:
         model = ZOO[spec["zoo"]](dict(spec))
         model.early = _EARLY
     finally:
         _EARLY = None
         _SURF_OPTS = {}
+        _MESH_OPTS = {}
     return model
+
+
+MESH_OPT_CHOICES = [{"span_cos_spacing": 1.0}, {"span_cos_spacing": 0.5}, {"chord_cos_spacing": 1.0}, {"span_cos_spacing": 0.0}]
 
 
 SURF_OPT_CHOICES = [
@@ -1416,7 +1444,9 @@ def variants():
         {"zoo": "Z8"},
         {"zoo": "Z8", "wave": True, "relief": True},
         {"zoo": "Z8", "exact": True},
+        {"zoo": "Z8", "pm": True},
         {"zoo": "Z9"},
+        {"zoo": "Z9", "rotational": True},
         {"zoo": "Z10"},
         {"zoo": "Z11", "compressible": True},
         {"zoo": "Z11", "ground": True},
